@@ -8,7 +8,8 @@ EXPLANATION = (
     "callees, evaluated constants, rvalue/terminator kinds); the set of items that exist in only one configuration or "
     "whose fingerprint differs from the default build must lie inside util::strains_vec and util::sync — a cfg(feature) "
     "or cfg!(feature) that changes behaviour anywhere else shows up as a differing fingerprint. R3: RefCount guard "
-    "discipline holds under both RefCount bodies (RefCell panics / RwLock self-deadlocks on a conflict). Numerical "
+    "discipline holds under both RefCount bodies (RefCell panics / RwLock self-deadlocks on a conflict). R4: both bodies of "
+    "StrainsVec::push store `value` only under the same positivity test and a zero otherwise (sibling normalisation). Numerical "
     "equivalence of the compact and the raw StrainsVec bodies is NOT decided (they treat negative/NaN pushes "
     "differently; equality needs every pushed strain >= 0).")
 
@@ -76,6 +77,9 @@ def run(ctx):
         for p in bad:
             ctx.violation('C10-R2', '%s:release:%s' % (c, p), 'release body of %s differs between default and %s' % (p, c))
         ctx.ok('C10-R2', 'confined:%s:release' % c, 'release profile: %d bodies compared, %d outside the sibling modules differ' % (len(t), len(bad)))
+    # R4 sibling normalisation of StrainsVec::push: whatever the compact body does not store as a value (non-positive, -NaN) it counts
+    # as zero; the raw body must push `value` only under the same positivity facts and a zero otherwise
+    r4_push(ctx, facts)
     # R3 both RefCount bodies
     for c in ('default', 'sync') + (('raw_strains', 'raw_strains+sync') if ctx.tier == 'thorough' else ()):
         nsites, nw = guardrule.check(ctx, facts[c], 'C10-R3', tag='[%s]' % c)
@@ -84,3 +88,61 @@ def run(ctx):
     ctx.assume('std RwLock: a recursive read on one thread blocks only when a writer is waiting; no other thread can hold a handle '
                '(C20-R4), so read-under-read nestings behave as with RefCell')
     ctx.not_decided('numerical equivalence of the compact (run-length) and the raw StrainsVec bodies')
+
+
+def positivity_facts(fn, bb, arg):
+    """does `arg` hold positive & non-zero on entry to bb? (the fact set accepted by C11-R2)"""
+    import arms
+    import prov
+    pos = nz = gt0 = False
+    for c, lab in arms.bool_facts(fn, bb):
+        if lab != 'true':
+            continue
+        c = prov.strip(c, names={'likely', 'unlikely'})
+        if c[0] == 'call' and c[1].get('name') == 'is_sign_positive' and c[2][0] == arg:
+            pos = True
+        if c[0] == 'binop' and c[1] in ('Gt', 'Ne'):
+            l, r = c[2], c[3]
+            if l[0] == 'call' and l[1].get('name') == 'to_bits' and l[2][0] == arg and prov.const_val(r) == '0':
+                nz = True
+            if c[1] == 'Gt' and l == arg and prov.const_val(r) in ('0.0', '0'):
+                gt0 = True
+    return (pos and nz) or gt0
+
+
+def r4_push(ctx, facts):
+    import prov
+    for cname in ('default', 'raw_strains'):
+        F = facts[cname]
+        f = F.fn('util::strains_vec::inner::StrainsVec::push')
+        if f is None:
+            ctx.violation('C10-R4', 'anchor-missing:push:' + cname, 'StrainsVec::push not found in configuration %s' % cname)
+            continue
+        P = prov.prov_of(f)
+        stores = []
+        for bi, t in f.calls():
+            name = t['func'].get('name')
+            if name == 'new_value':
+                stores.append((bi, t, P.call_args(bi)[0], 'value'))
+            elif name == 'push' and (t['func'].get('path') or '').startswith('std::vec::Vec'):
+                a = P.call_args(bi)[1]
+                sa = prov.strip(a)
+                if sa[0] == 'call' and sa[1].get('name') in ('new_value', 'new_zero'):
+                    continue        # compact body: the entry constructor is judged instead
+                stores.append((bi, t, a, 'raw'))
+        bad = []
+        nval = 0
+        for bi, t, a, kind in stores:
+            sa = prov.strip(a)
+            if sa[0] == 'const' and sa[1].get('val') in ('0.0', '0', '-0.0'):
+                continue
+            if sa == ('param', 2):
+                nval += 1
+                if not positivity_facts(f, bi, sa):
+                    bad.append(t.get('ln'))
+            else:
+                bad.append(t.get('ln'))
+        ctx.require(not bad and nval >= 1, 'C10-R4', 'push:' + cname,
+                    'StrainsVec::push [%s] stores `value` only under the positivity test (value.to_bits() > 0 && is_sign_positive, or value > 0.0); everything else is a zero' % cname,
+                    f.where(), bad='StrainsVec::push [%s] stores its argument without the positivity test the sibling implementation applies (line(s) %s): a negative strain '
+                                   'is a zero in one feature configuration and a negative number in the other, so results differ between builds' % (cname, bad))
